@@ -72,3 +72,17 @@ def reduce_union1d(ctx, seq):
     ctx.assume(qforall(2, lambda m, k: z3.Implies(z3.And(0 <= m, m < n, 0 <= k, k < at(m).n), z3.And(0 <= pos(m, k), pos(m, k) < u.n, u.sel(pos(m, k)) == at(m).sel(k)))))
     u.runion = (item, src, pos)
     return u
+
+
+def np_nonzero(ctx, mask):
+    """mask.nonzero()[0] for a 1-D bool array: the strictly increasing array of the True positions."""
+    if not (isinstance(mask, Vec) and mask.kind == 'bool'):
+        raise Unsupported('nonzero variant')
+    p = Vec.fresh(ctx, 'nonzero(%s)' % mask.name, 'int', report=False)
+    rank = z3.Function(ctx.name('nonzero.rank'), I, I)
+    ax = 'mask.nonzero()[0], 1-D bool: strictly increasing; items are exactly the positions holding True (Skolem witness)'
+    ctx.assume(p.n <= mask.n, axiom=ax)
+    ctx.assume(strictly_increasing(p))
+    ctx.assume(qforall(1, lambda j: z3.Implies(z3.And(0 <= j, j < p.n), z3.And(0 <= p.sel(j), p.sel(j) < mask.n, mask.sel(p.sel(j))))))
+    ctx.assume(qforall(1, lambda a: z3.Implies(z3.And(0 <= a, a < mask.n, mask.sel(a)), z3.And(0 <= rank(a), rank(a) < p.n, p.sel(rank(a)) == a))))
+    return p
